@@ -361,21 +361,26 @@ def history_case(draw):
     base['k'] = max(base['k'], 2)
     base['p'] = (base['p'] + [1.0, 2.0])[:base['k']]
     base['nested'] = [n for n in base['nested'] if n < base['k']] or [0]
-    calls = draw(st.lists(st.tuples(st.sampled_from(STATS), st.integers(0, 2), st.booleans()), min_size=2, max_size=8))
-    return dict(base=base, calls=[list(c) for c in calls], collect=draw(st.booleans()))
+    # a call = (statistic, model variant, multinom, grid setting, bootstrap theta adjustments on/off)
+    calls = draw(st.lists(st.tuples(st.sampled_from(STATS), st.integers(0, 2), st.booleans(), st.sampled_from([20, 20, 35]), st.booleans()),
+                          min_size=2, max_size=8))
+    # shared: a variant is ONE function object used by all its calls (a model defined once at module level); otherwise every call
+    # gets a new function object (a closure rebuilt each time), which is what exposes caches keyed on object identity
+    return dict(base=base, calls=[list(c) for c in calls], collect=draw(st.booleans()), shared=draw(st.booleans()))
 
 
-def run_stat(kind, func, model, case, multinom):
+def run_stat(kind, func, model, case, multinom, pts=20, adjust=False):
     p0 = list(case['p'])
     data = dadi.Spectrum(model.data)
     boots = [dadi.Spectrum(b) for b in model.boots]
-    pts, eps, nested = [20], case['eps'], case['nested']
+    pts, eps, nested = [pts], case['eps'], case['nested']
+    adj = dict(boot_theta_adjusts=[0.8 + 0.1 * (i % 5) for i in range(len(boots))]) if (adjust and not multinom) else {}
     if kind == 'FIM':
         return Godambe.FIM_uncert(func, pts, p0, data, multinom=multinom, eps=eps)
     if kind == 'GIM':
-        return Godambe.GIM_uncert(func, pts, boots, p0, data, multinom=multinom, eps=eps)
+        return Godambe.GIM_uncert(func, pts, boots, p0, data, multinom=multinom, eps=eps, **adj)
     if kind == 'LRT':
-        return Godambe.LRT_adjust(func, pts, boots, p0, data, nested, multinom=multinom, eps=eps)
+        return Godambe.LRT_adjust(func, pts, boots, p0, data, nested, multinom=multinom, eps=eps, **adj)
     if kind == 'Wald':
         full = [v * 1.07 for v in p0]
         return Godambe.Wald_stat(func, pts, boots, p0, data, nested, full, multinom=multinom, eps=eps)
@@ -384,8 +389,9 @@ def run_stat(kind, func, model, case, multinom):
 
 @REG.relation('R5-history-independence', strategy=history_case, quick=(250, 16), thorough=(5000, 16))
 def r5(case, rec):
-    """Any sequence of statistics over DIFFERENT model functions sharing (p0, ns, pts): each call returns what it returns on an
-    empty cache (the module-level spectrum cache is transparent)."""
+    """Any sequence of statistics over model functions sharing (p0, ns) - different function objects or the same one, the same
+    grid setting or another, with or without bootstrap theta adjustments: each call returns what it returns on an empty cache (the
+    module-level spectrum cache is transparent)."""
     base = case['base']
     model = LinModel(base)
 
@@ -393,31 +399,38 @@ def r5(case, rec):
         scale = [1.0, 1.35, 0.6][variant]
 
         def f(params, ns, pts):
-            return dadi.Spectrum(scale * (model.B0 + np.asarray(params, float) @ model.B) + variant)
+            # (1 + 5/pts): a dependence on the grid setting, as every real model has
+            return dadi.Spectrum((scale * (model.B0 + np.asarray(params, float) @ model.B) + variant) * (1.0 + 5.0 / float(np.atleast_1d(pts)[0])))
         return f
-    nvar = len(set(c[1] for c in case['calls']))
-    rec.case(case, nvar >= 2, ['variants=%d' % nvar, 'len=%d' % len(case['calls'])])
+    calls = [(list(c) + [20, False])[:5] for c in case['calls']]
+    shared = {}
+    if case.get('shared'):
+        shared = {v: make(v) for v in range(3)}
+    nvar = len(set(c[1] for c in calls))
+    rec.case(case, nvar >= 2 or len(set(c[3] for c in calls)) >= 2, ['variants=%d' % nvar, 'len=%d' % len(calls), 'shared functions' if shared else 'fresh functions',
+                                                                      'grids=%d' % len(set(c[3] for c in calls))])
     # reference values: each call on an empty cache
     ref = []
-    for kind, variant, multinom in case['calls']:
+    for kind, variant, multinom, pts, adjust in calls:
         Godambe.cache.clear()
         try:
             with dadi_call(kind):
-                ref.append(np.asarray(run_stat(kind, make(variant), model, base, multinom), float))
+                ref.append(np.asarray(run_stat(kind, make(variant), model, base, multinom, pts, adjust), float))
         except Violation as v:
             if 'LinAlgError' in v.msg:
                 raise Reject()
             raise
     Godambe.cache.clear()
-    for i, (kind, variant, multinom) in enumerate(case['calls']):
-        f = make(variant)
+    for i, (kind, variant, multinom, pts, adjust) in enumerate(calls):
+        f = shared.get(variant) or make(variant)
         with dadi_call(kind):
-            got = np.asarray(run_stat(kind, f, model, base, multinom), float)
+            got = np.asarray(run_stat(kind, f, model, base, multinom, pts, adjust), float)
         del f
         if case['collect']:
             gc.collect()
         if not np.allclose(got, ref[i], rtol=1e-10, atol=0, equal_nan=True):
-            raise Violation('call %d of the history (%s, model variant %d, multinom=%s) returned %r, but %r on an empty cache; '
-                            'earlier calls: %r' % (i, kind, variant, multinom, got.tolist(), ref[i].tolist(), case['calls'][:i]),
+            raise Violation('call %d of the history (%s, model variant %d, multinom=%s, pts=%d, theta adjustments=%s, %s function objects) returned %r, '
+                            'but %r on an empty cache; earlier calls: %r' % (i, kind, variant, multinom, pts, adjust, 'shared' if shared else 'fresh',
+                                                                             got.tolist(), ref[i].tolist(), calls[:i]),
                             finding='stale-cache')
     Godambe.cache.clear()
